@@ -329,7 +329,15 @@ func c07check(c *h.Ctx, box [4]float64, line []P, tol float64, full bool) (nontr
 		if bad {
 			continue
 		}
-		if !matchPieces(rest, exp, tol) {
+		// both sides are compared after the same normalisation: consecutive vertices closer than tol count as one
+		// (input vertices 1e-10 apart would otherwise be merged on the library's side only)
+		var expT [][]P
+		for _, e := range exp {
+			if d := dedupeTol(e, tol); len(d) > 1 {
+				expT = append(expT, d)
+			}
+		}
+		if !matchPieces(rest, expT, tol) {
 			c.Fail("", "clipped pieces differ from the exact inside part of the line", map[string]interface{}{"case": cs(), "got": sv(got), "expected": sv(exp)})
 			continue
 		}
@@ -481,7 +489,13 @@ func c07check(c *h.Ctx, box [4]float64, line []P, tol float64, full bool) (nontr
 			rest2 = append(rest2, d)
 		}
 	}
-	if !matchPieces(rest2, expClosed, tol) {
+	var expClosedT [][]P
+	for _, e := range expClosed {
+		if d := dedupeTol(e, tol); len(d) > 1 {
+			expClosedT = append(expClosedT, d)
+		}
+	}
+	if !matchPieces(rest2, expClosedT, tol) {
 		c.Fail("", "closed clip after an open clip differs from the exact closed result (option state leaked?)", map[string]interface{}{"case": c07case{box, line, false}, "got": sv(got2), "expected": sv(expClosed)})
 	}
 	return nontrivial
